@@ -980,6 +980,68 @@ func c03Nesting(c *core.Check) {
 			}
 		}
 	}
+	// (a') the parent's prelude only enters a nested prelude wrapped in :is(): a raw copy of a parent selector list
+	// `a, b` in front of `p` would read `a, b p`
+	rawParent := ""
+	if split != nil && len(fn.Params) == 3 {
+		parent := fn.Params[2]
+		var raw func(v ssa.Value, seen map[ssa.Value]bool) bool
+		raw = func(v ssa.Value, seen map[ssa.Value]bool) bool {
+			if v == nil || seen[v] {
+				return false
+			}
+			seen[v] = true
+			switch x := v.(type) {
+			case *ssa.Parameter:
+				return x == parent
+			case *ssa.Phi:
+				for _, e := range x.Edges {
+					if raw(e, seen) {
+						return true
+					}
+				}
+			case *ssa.Slice:
+				return raw(x.X, seen)
+			case *ssa.Call:
+				if bi, ok := x.Call.Value.(*ssa.Builtin); ok && bi.Name() == "append" {
+					if raw(x.Call.Args[0], seen) {
+						return true
+					}
+					if len(x.Call.Args) > 1 && raw(x.Call.Args[1], seen) {
+						return true
+					}
+				}
+			}
+			return false
+		}
+		for _, l := range core.Loops(fn) {
+			ranges := false
+			for _, in := range l.Header.Instrs {
+				if cmp, ok := in.(*ssa.BinOp); ok && cmp.Op == token.LSS {
+					if lc, ok := cmp.Y.(*ssa.Call); ok {
+						if bi, ok := lc.Call.Value.(*ssa.Builtin); ok && bi.Name() == "len" && lc.Call.Args[0] == ssa.Value(split) {
+							ranges = true
+						}
+					}
+				}
+			}
+			if !ranges {
+				continue
+			}
+			for b := range l.Blocks {
+				for _, in := range b.Instrs {
+					if call, ok := in.(*ssa.Call); ok {
+						if bi, ok := call.Call.Value.(*ssa.Builtin); ok && bi.Name() == "append" && len(call.Call.Args) > 1 {
+							if raw(call.Call.Args[1], map[ssa.Value]bool{}) || raw(call.Call.Args[0], map[ssa.Value]bool{}) {
+								rawParent = p.Pos(call.Pos())
+							}
+						}
+					}
+				}
+			}
+		}
+	}
+	r.Cond(rawParent == "", "PreprocessDeclarationsPrelude | parent enters nested preludes only inside :is()", p.Pos(fn.Pos()), "no raw copy of the parent prelude in the nested prelude", "the parent's prelude is copied raw into the nested prelude at "+rawParent+": with a parent list `a, b` the nested selector reads `a, b p` instead of `:is(a, b) p`")
 	r.Cond(perPart, "PreprocessDeclarationsPrelude | parent inserted per selector of the nested list", p.Pos(fn.Pos()), "the :is(parent) token is appended inside the loop over SplitOnComma(nested prelude)", "the parent is not inserted for each comma-separated selector of a nested rule: `div { p, span {…} }` applies to every span")
 	// (b) the returned list starts with the rule's own declarations
 	ownFirst := false
